@@ -4,7 +4,9 @@
 //! global sequence shared by the store and the network): Store(boundary) from the store, Use(counter) from the
 //! message header of every datagram the node put on the wire, Restart at every boot.  The trace is validated by the
 //! same CountersTrace.tla / CountersProp.tla as the object-level run.
-//!   behaviour = {"start": model boundary or -1, "ops": [{"op": "Boot"} | {"op": "Send", "n": k} | {"op": "Crash"}]}
+//!   behaviour = {"start": model boundary or -1, "ops": [{"op": "Boot"} | {"op": "Send", "n": k} | {"op": "Crash"} |
+//!                {"op": "Hold", "n": k} (open k group exchanges and keep them: the session runs out of exchange slots) |
+//!                {"op": "Try"} (one more group message, which may be refused for lack of a slot) | {"op": "Release"}]}
 
 use core::cell::Cell;
 use core::num::NonZeroU8;
@@ -66,12 +68,14 @@ fn run_one(b: &Value) -> Vec<Value> {
         }
         k += 1;
         let mut sends = 0usize;
+        let first = k;
         while k < ops.len() && ops[k]["op"] != "Crash" && ops[k]["op"] != "Boot" {
             if ops[k]["op"] == "Send" {
                 sends += ops[k]["n"].as_u64().unwrap_or(1) as usize;
             }
             k += 1;
         }
+        let life = &ops[first..k];
         out.push(json!({"ev": "Restart", "kind": "grp"}));
         let seq0 = sim::next_seq();
         let net = sim::new_net();
@@ -85,12 +89,53 @@ fn run_one(b: &Value) -> Vec<Value> {
         crate::c03g::provision(&m);
         let fab = NonZeroU8::new(1).unwrap();
         let done = Cell::new(false);
+        let tried_ok = Cell::new(0usize);
+        let extra = Cell::new(0usize);
         let err = core::cell::RefCell::new(String::new());
         let story = async {
             let r: Result<(), Error> = async {
-                for i in 0..sends {
-                    let mut ex = Exchange::initiate_group(&m, &crypto, m.kv(RecKv(kv.clone())), fab, 1 + (i % 2) as u16)?;
-                    ex.send(MessageMeta::new(0x7777, 1, false), &[i as u8; 6]).await?;
+                let mut held: Vec<Exchange<'_>> = Vec::new();
+                let mut i = 0usize;
+                for op in life {
+                    match op["op"].as_str().unwrap() {
+                        "Send" => {
+                            for _ in 0..op["n"].as_u64().unwrap_or(1) {
+                                let mut ex = Exchange::initiate_group(&m, &crypto, m.kv(RecKv(kv.clone())), fab, 1 + (i % 2) as u16)?;
+                                ex.send(MessageMeta::new(0x7777, 1, false), &[i as u8; 6]).await?;
+                                i += 1;
+                            }
+                        }
+                        "SendToBoundary" => {
+                            // so many messages that, once every exchange slot of the group session is held, the next
+                            // reservation is the one that moves the boundary (the first of a life does, then every EPOCH-th)
+                            let target = op["laps"].as_u64().unwrap_or(1) as usize * rs_matter::transport::session::GROUP_DATA_CTR_EPOCH as usize - rs_matter::transport::session::MAX_EXCHANGES;
+                            while i < target {
+                                let mut ex = Exchange::initiate_group(&m, &crypto, m.kv(RecKv(kv.clone())), fab, 1)?;
+                                ex.send(MessageMeta::new(0x7777, 1, false), &[i as u8; 6]).await?;
+                                i += 1;
+                                extra.set(extra.get() + 1);
+                            }
+                        }
+                        "Hold" => {
+                            // fill the exchange table of the group session
+                            for _ in 0..rs_matter::transport::session::MAX_EXCHANGES {
+                                let mut ex = Exchange::initiate_group(&m, &crypto, m.kv(RecKv(kv.clone())), fab, 1)?;
+                                ex.send(MessageMeta::new(0x7777, 1, false), &[i as u8; 6]).await?;
+                                held.push(ex);
+                                i += 1;
+                                extra.set(extra.get() + 1);
+                            }
+                        }
+                        "Try" => {
+                            // may be refused (no exchange slot left); whatever it reserved must still be covered
+                            if let Ok(mut ex) = Exchange::initiate_group(&m, &crypto, m.kv(RecKv(kv.clone())), fab, 1) {
+                                let _ = ex.send(MessageMeta::new(0x7777, 1, false), &[i as u8; 6]).await;
+                                tried_ok.set(tried_ok.get() + 1);
+                            }
+                        }
+                        "Release" => held.clear(),
+                        _ => {}
+                    }
                 }
                 // let the transport put the last datagram on the wire
                 embassy_time::Timer::after_millis(20).await;
@@ -131,7 +176,7 @@ fn run_one(b: &Value) -> Vec<Value> {
         evs.sort_by_key(|e| e.0);
         let n_use = evs.iter().filter(|e| e.1["ev"] == "Use").count();
         out.extend(evs.into_iter().map(|e| e.1));
-        out.push(json!({"ev": "Life", "sends": sends, "on_wire": n_use, "error": err.borrow().clone()}));
+        out.push(json!({"ev": "Life", "sends": sends + tried_ok.get() + extra.get(), "on_wire": n_use, "error": err.borrow().clone()}));
     }
     out
 }
